@@ -57,7 +57,14 @@ func vAddBoth(idx VectorIndex, m *vRef, id uint32, raw []float32) bool {
 	if err != nil {
 		return false
 	}
-	m.entries = append(m.entries, vRefEntry{id, stored, true})
+	// an update (re-add of a removed id): the dead entry of that id is superseded
+	var keep []vRefEntry
+	for _, e := range m.entries {
+		if e.id != id || e.live {
+			keep = append(keep, e)
+		}
+	}
+	m.entries = append(keep, vRefEntry{id, stored, true})
 	return true
 }
 
